@@ -449,7 +449,7 @@ def _raises(ctx):
                     in_except = True
                 p = parent(p)
             final_fallthrough = where.endswith('is_multi') or where.endswith('_handle_type_specially')
-            ctx.check(bool(gs) or in_except or final_fallthrough, 'EXC', f"{where}: raise {typ} is conditional",
+            ctx.check(bool(gs) or bool(facts_at(r)) or in_except or final_fallthrough, 'EXC', f"{where}: raise {typ} is conditional",
                       detail_bad=f"unconditional `{norm(r)[:60]}` on a parser path", key=f"EXC|{where}|raise-uncond|{typ}",
                       where=common.loc(fi, r))
     ctx.floor('raise sites in the parser package', n, 20)
@@ -462,10 +462,12 @@ def _raises(ctx):
                   key=f"EXC|is_multi|{rn}")
     # entry checks
     pi = ctx.repo.func('PLSSDesc.__init__')
-    ok = any(isinstance(r, ast.Raise) and 'TypeError' in norm(r) and any(
-        norm(t) == 'not isinstance(raw_plss, str)' and pol for t, pol in guards(r)) for r in walk_local(pi.node))
-    ctx.check(ok, 'EXC', 'PLSSDesc rejects non-str text with TypeError', detail_bad="type check of raw_plss changed",
-              key="EXC|PLSSDesc.__init__|TypeError")
+    text_param = [p for p in pi.params() if p != 'self'][0]
+    traises = [r for r in walk_local(pi.node) if isinstance(r, ast.Raise) and 'TypeError' in norm(r)]
+    ok = any((f"isinstance({text_param}, str)", False) in [(t, pol) for _e, t, pol in facts_at(r)] for r in traises)
+    ctx.tri(ok, not traises, 'EXC', 'PLSSDesc rejects non-str text with TypeError',
+            detail_bad="PLSSDesc.__init__ no longer raises TypeError: non-string text fails later with an undocumented exception",
+            key="EXC|PLSSDesc.__init__|TypeError")
 
 
 def _at_least_one_tract(ctx):
